@@ -19,27 +19,41 @@ open Dulwich Dulwich.Objects
 section cache
 variable {F : Type}
 
-/-- The full statement for `Blob`, over the setter kinds the class really has (translator's table:
-`data` = 2, `chunked` = 0): after any history, `id` is the hash of header ++ content.  It is **false**
-on the unchanged code (`id_is_hash_always_statement_false` below); what is proved for every class is
-`id_is_hash_always_partial`, whose extra hypothesis is "no kind-0 setter in the history". -/
-def IdIsHashAlwaysStatement : Prop :=
-  ∀ (H : Bytes → Bytes) (ops : List (Op Bytes)),
-    (∀ op ∈ ops, match op with
-      | .set k _ => k ∈ (OGen.setters.filter (·.1 == "Blob")).map (·.2.2)
-      | _ => True) →
-    (shaStep H blobCls (run H blobCls blobInit ops)).1
-      = (content blobCls (run H blobCls blobInit ops)).bind (nameOf H blobCls)
-
-/-- **Invariant over histories** (partial: histories without a flag-less setter).  Start from any state
-satisfying the invariant (a fresh object does), apply any sequence of public setters that touch the
-flags (kind ≠ 0), `set_raw_string`, `id` and `as_raw_string()` calls: `id` then returns
-`H (object_header ++ content)` where content is what `as_raw_string()` returns.  `H` is an arbitrary
-function (SHA-1, SHA-256, anything).  Missing for the full statement: `Blob.chunked` (kind 0). -/
-theorem id_is_hash_always_partial (H : Bytes → Bytes) (C : Cls F) (hA : AliasClass C) (s0 : St F) (h0 : Inv H C s0)
+/-- **Invariant over histories, any class, any flag-touching setters.**  Start from any state satisfying
+the invariant (a fresh object does), apply any sequence of public setters of kind ≠ 0, `set_raw_string`,
+`id` and `as_raw_string()` calls: `id` then returns `H (object_header ++ content)` where content is what
+`as_raw_string()` returns.  `H` is an arbitrary function (SHA-1, SHA-256, anything). -/
+theorem id_is_hash_of_invalidating (H : Bytes → Bytes) (C : Cls F) (hA : AliasClass C) (s0 : St F) (h0 : Inv H C s0)
     (ops : List (Op F)) (hops : ∀ op ∈ ops, op.invalidating) :
     (shaStep H C (run H C s0 ops)).1 = (content C (run H C s0 ops)).bind (nameOf H C) :=
   shaStep_fst H C _ (run_inv H C hA ops s0 hops h0)
+
+/-- Tie to the source: **every** public setter the translator found in `Blob`, `Tree`, `Commit`, `Tag`
+touches the cache (marks dirty, goes through `set_raw_string`, or drops the cached id). -/
+theorem setters_invalidate : ∀ e ∈ OGen.setters, e.2.2 ≠ 0 := by decide
+
+/-- **`id_is_hash_always`, in full, over the real setter table.**  For every class and every history whose
+setter steps have a kind that occurs in the translator's table (i.e. are setters the code has), the id
+is the hash of header ++ content.  (Before commit 714a12f this was false: `Blob.chunked` had kind 0.) -/
+theorem id_is_hash_always (H : Bytes → Bytes) (C : Cls F) (hA : AliasClass C) (s0 : St F) (h0 : Inv H C s0)
+    (ops : List (Op F))
+    (hops : ∀ op ∈ ops, match op with
+      | .set k _ => k ∈ OGen.setters.map (·.2.2)
+      | _ => True) :
+    (shaStep H C (run H C s0 ops)).1 = (content C (run H C s0 ops)).bind (nameOf H C) := by
+  apply id_is_hash_of_invalidating H C hA s0 h0 ops
+  intro op hop
+  have := hops op hop
+  cases op with
+  | set k u =>
+    simp only [List.mem_map] at this
+    obtain ⟨e, he, hk⟩ := this
+    simp only [Op.invalidating]
+    rw [← hk]
+    exact setters_invalidate e he
+  | setRaw b => trivial
+  | getId => trivial
+  | asRaw => trivial
 
 /-- The content follows the fields: right after a dirty-marking setter (every `serializable_property`,
 `Commit.parents`, `Tag.object`, `Tree.add/__setitem__/__delitem__`), and after any number of reads, the
@@ -82,22 +96,60 @@ theorem blob_inv (H : Bytes → Bytes) : Inv H blobCls blobInit :=
 
 theorem blob_aliasClass : AliasClass blobCls := fun _ _ b => ⟨b, rfl, rfl⟩
 
-/-- Tie to the source: every public setter the translator found in `Blob`, `Tree`, `Commit`, `Tag`
-touches the flags — except `Blob.chunked`. -/
-theorem setters_invalidate :
-    ∀ e ∈ OGen.setters, e ≠ ("Blob", "chunked", 0) → e.2.2 ≠ 0 := by decide
-
-/-- … and `Blob.chunked` is in the table with kind 0: it only assigns `_chunked_text`. -/
-theorem blob_chunked_kind : setterKind "Blob" "chunked" = some 0 := by decide
+/-- `Blob.chunked` is in the table with kind 3: it assigns `_chunked_text` and drops the cached id. -/
+theorem blob_chunked_kind : setterKind "Blob" "chunked" = some 3 := by decide
 
 /-- Non-vacuity: the table is not empty and contains the setters the property talks about. -/
 example : setterKind "Commit" "author" = some 1 ∧ setterKind "Tag" "object" = some 1 ∧
     setterKind "Tree" "add" = some 1 ∧ setterKind "Blob" "data" = some 2 ∧ OGen.setters.length = 24 := by decide
 
-/-- **Negation witness (DESIGN F1).**  With the `Blob.chunked` setter as coded (kind 0) the invariant
-fails: `b.data = b"x"; b.id; b.chunked = [b"y"]; b.id` returns the name of `x` although the content is
-`y` — for every injective hash. -/
-theorem id_stale_after_chunked_counterexample (H : Bytes → Bytes) (hH : ∀ a b, H a = H b → a = b) :
+/-- **Blob, in full**: after any history of `data = …`, `chunked = …`, `set_raw_string`, `id`,
+`as_raw_string()` on a `Blob()`, the id is the hash of `blob <len>\0` ++ the current content. -/
+theorem blob_id_is_hash_always (H : Bytes → Bytes) (ops : List (Op Bytes))
+    (hops : ∀ op ∈ ops, match op with
+      | .set k _ => k ∈ (OGen.setters.filter (·.1 == "Blob")).map (·.2.2)
+      | _ => True) :
+    (shaStep H blobCls (run H blobCls blobInit ops)).1
+      = (content blobCls (run H blobCls blobInit ops)).bind (nameOf H blobCls) := by
+  apply id_is_hash_of_invalidating H blobCls blob_aliasClass blobInit (blob_inv H) ops
+  intro op hop
+  have := hops op hop
+  cases op with
+  | set k u =>
+    have hk : k = 2 ∨ k = 3 := by
+      have e : (OGen.setters.filter (·.1 == "Blob")).map (·.2.2) = [2, 3] := by decide
+      rw [e] at this
+      simpa using this
+    simp only [Op.invalidating]
+    omega
+  | setRaw b => trivial
+  | getId => trivial
+  | asRaw => trivial
+
+/-- For a blob the content is the value last assigned, by either setter, also after reads. -/
+theorem blob_content_tracks_fields (H : Bytes → Bytes) (s : St Bytes) (k : Nat) (hk : k = 2 ∨ k = 3)
+    (u : Bytes → Bytes) (reads : List (Op Bytes)) (hr : ∀ op ∈ reads, op.isRead) :
+    content blobCls (run H blobCls (setStep blobCls k u s) reads) = some (u s.fields) := by
+  rw [(run_reads H blobCls reads _ hr).1]
+  rcases hk with rfl | rfl
+  · simp [setStep, setRawStep, blobCls, content]
+  · simp only [setStep, blobCls, content]
+    split <;> simp
+
+/-- **Regression (DESIGN F1, fixed by 714a12f).**  The history that used to expose the stale id —
+`b.data = b"x"; b.id; b.chunked = [b"y"]; b.id` — with the setter kind the code has now: the content is
+`y` and the id is the name of `y`. -/
+theorem chunked_history_regression (H : Bytes → Bytes) :
+    let s := run H blobCls blobInit [.set 2 (fun _ => [120]), .getId, .set 3 (fun _ => [121])]
+    content blobCls s = some [121] ∧
+    (shaStep H blobCls s).1 = some (H [98, 108, 111, 98, 32, 49, 0, 121]) :=
+  ⟨rfl, rfl⟩
+
+/-- **The old defect, kept as a model variant.**  With the `Blob.chunked` setter as it was coded before
+714a12f (kind 0: assigns `_chunked_text` only) the invariant fails on that history, for every injective
+hash.  If the invalidation is ever dropped again the translator emits kind 0, `setters_invalidate` and
+`blob_chunked_kind` stop compiling, and this is the behaviour the model then predicts. -/
+theorem old_chunked_kind_counterexample (H : Bytes → Bytes) (hH : ∀ a b, H a = H b → a = b) :
     let s := run H blobCls blobInit [.set 2 (fun _ => [120]), .getId, .set 0 (fun _ => [121])]
     content blobCls s = some [121] ∧
     (shaStep H blobCls s).1 ≠ (content blobCls s).bind (nameOf H blobCls) := by
@@ -115,18 +167,6 @@ theorem id_stale_after_chunked_counterexample (H : Bytes → Bytes) (hH : ∀ a 
   intro h
   have := hH _ _ (Option.some.inj h)
   simp at this
-
-/-- The full statement is false on the unchanged code (take `H := id`). -/
-theorem id_is_hash_always_statement_false : ¬ IdIsHashAlwaysStatement := by
-  intro h
-  have h1 := h id [.set 2 (fun _ => [120]), .getId, .set 0 (fun _ => [121])] (by
-    intro op hop
-    simp only [List.mem_cons, List.not_mem_nil, or_false] at hop
-    rcases hop with rfl | rfl | rfl
-    · decide
-    · trivial
-    · decide)
-  exact (id_stale_after_chunked_counterexample id (fun _ _ e => e)).2 h1
 
 end cache
 
@@ -331,6 +371,16 @@ theorem commit_roundtrip (c : Commit) (h : WFCommit c) :
     ∃ bs, serializeCommit c = .ok bs ∧ deserializeCommit bs = .ok c :=
   commit_roundtrip_lemma c h
 
+/-- **Commit round trip without the LF requirement on mergetags** (the code after b8dbd4a).  If the
+mergetag texts are arbitrary bytes whose completion (`text` itself when it ends in LF, `text ++ "\n"`
+otherwise) parses as a tag, then fields → bytes → fields returns the commit with exactly that
+completion applied to each mergetag text: no byte is lost; it is not the identity for a text without
+final LF, because the header format cannot tell `foo` from `foo\n` (git completes the line as well). -/
+theorem commit_roundtrip_general (c : Commit) (h : WFCommitG c) :
+    ∃ bs, serializeCommit c = .ok bs ∧
+      deserializeCommit bs = .ok { c with mergetag := c.mergetag.map completeLF } :=
+  commit_roundtrip_general_lemma c h
+
 /-- **Canonical bytes → fields → bytes.**  Bytes that are the serialisation of some well-formed commit
 (the grammar git emits, which the correspondence check and C git tie to `serializeCommit`) are
 reproduced exactly by parsing and re-serialising — what any dirty-marking setter triggers. -/
@@ -386,7 +436,7 @@ theorem one_field_edit_author (c : Commit) (h : WFCommit c) (a' : TimeInfo) (ha'
     | cons x xs ih => simp [formatHeaders, ih]
   refine ⟨formatHeaders ((OGen.hdrTree, t) :: parents.map fun p => (OGen.hdrParent, p)),
     formatHeaders ((OGen.hdrCommitter, vc) :: (optHeader OGen.hdrEncoding encoding ++
-        ((mergetag.map fun raw => (OGen.hdrMergetag, raw.dropLast)) ++ (extra ++ optHeader OGen.hdrGpgsig gpgsig))))
+        ((mergetag.map fun raw => (OGen.hdrMergetag, mergetagValue raw)) ++ (extra ++ optHeader OGen.hdrGpgsig gpgsig))))
       ++ [10] ++ m,
     formatHeader (OGen.hdrAuthor, va), formatHeader (OGen.hdrAuthor, va'), ?_, ?_, ⟨va, rfl⟩, ⟨va', rfl⟩⟩
   · simp [serializeCommit, slots, collect, commitSlot, timeHeader, hva1, hvc1, formatMessage, formatHeaders, fh]
@@ -424,15 +474,23 @@ theorem commit_id_after_edit (H : Bytes → Bytes) (s0 : St Commit) (h0 : Inv H 
 /-- The header the hash input starts with is `commit <decimal length> NUL` (evaluated on an instance). -/
 example : hashInput 1 [120, 121] = some [99, 111, 109, 109, 105, 116, 32, 50, 0, 120, 121] := by decide
 
-/-- **Negation witness (finding mergetag-lf).**  `Commit._serialize` cuts the last byte of every
-mergetag text (`as_raw_string()[:-1]`) and the parser appends LF: a mergetag whose text does not end in
-LF (`…\n\nfoo`) comes back as `…\n\nfo\n`. -/
-theorem mergetag_without_lf_counterexample :
+/-- Tie to the source: `Commit._serialize` cuts the final byte of a mergetag text only when it is LF. -/
+theorem mergetag_cut_is_conditional : OGen.mergetagStripConditional = true := rfl
+
+/-- **Regression (finding mergetag-lf, fixed by b8dbd4a).**  A mergetag whose text does not end in LF
+(`…\n\nfoo`) keeps every byte: the parsed commit holds `…\n\nfoo\n` (the parser's appended LF), and that
+commit serialises to the very same bytes. -/
+theorem mergetag_without_lf_preserved :
     ∃ bs, serializeCommit (cxCommit [cxTagText] (some [109])) = .ok bs ∧
-      deserializeCommit bs = .ok (cxCommit [cxTagText.dropLast ++ [10]] (some [109])) ∧
-      cxTagText.dropLast ++ [10] ≠ cxTagText := by
-  refine ⟨_, rfl, ?_, by decide⟩
-  decide +kernel
+      deserializeCommit bs = .ok (cxCommit [cxTagText ++ [10]] (some [109])) ∧
+      serializeCommit (cxCommit [cxTagText ++ [10]] (some [109])) = .ok bs := by
+  refine ⟨_, rfl, ?_, ?_⟩ <;> decide +kernel
+
+/-- **The old defect, kept as a variant.**  The unconditional cut `text[:-1]` (code before b8dbd4a) turns
+the same text into `…\n\nfo`, which the parser completes to `…\n\nfo\n`: a content byte is gone. -/
+theorem old_mergetag_cut_counterexample :
+    cxTagText.dropLast ++ [10] ≠ cxTagText ++ [10] ∧ mergetagValue cxTagText = cxTagText ∧
+    cxTagText.dropLast ≠ cxTagText := by decide
 
 /-- witness data: `tree a\nauthor A> 1 +0000\ncommitter C> 1 +0000\n` — no blank line, no message -/
 def cxNoBlank : Bytes := [116, 114, 101, 101, 32, 97, 10, 97, 117, 116, 104, 111, 114, 32, 65, 62, 32, 49, 32, 43, 48,
